@@ -288,7 +288,7 @@ def report():
     out.append('Produced by `tools/mutate.py` (suite -> checks -> report) on /repo HEAD `%s` with the harness of /verif `%s`.\n' % (
         subprocess.check_output(['git', '-C', REPO, 'rev-parse', '--short', 'HEAD']).decode().strip(),
         subprocess.check_output(['git', '-C', '/verif', 'rev-parse', '--short', 'HEAD']).decode().strip()))
-    out.append('Mutation operators: relational / logical / arithmetic operator swaps, constants 0/1/2, true/false, Less/Greater/Equal, min/max, Including/Excluding, Lower/Upper, any/all, is_some/is_none, operator-kind swaps, dropped `.rev()` / `.flatten()`, field swaps (major/minor/patch, lower/upper, pre_release/build), MAX_SAFE_INTEGER and MAX_LENGTH +-1, space0/space1, dropped `!` — on every non-test, non-hook line of src/lib.rs and src/range.rs.\n')
+    out.append('Mutation operators: relational / logical / arithmetic operator swaps, constants 0/1/2, true/false, Less/Greater/Equal, min/max, Including/Excluding, Lower/Upper, any/all, is_some/is_none, operator-kind swaps, dropped `.rev()` / `.flatten()`, field swaps (major/minor/patch, lower/upper, pre_release/build), MAX_SAFE_INTEGER and MAX_LENGTH +-1, space0/space1, dropped `!`; second batch: a dropped conjunct / pattern alternative / iterator adaptor / statement line, `if c` -> `if true` / `if false`, swapped comparison operands, `+= 1` -> `+= 0/2`, multi-digit constants +-1 — on every non-test, non-hook line of src/lib.rs and src/range.rs.\n')
     out.append('| | count |\n|---|---|')
     out.append('| mutants generated | %d |' % len(p1))
     out.append('| do not compile | %d |' % st['nocompile'])
@@ -308,6 +308,13 @@ def report():
         out.append('| %s | %s:%d | `%s` -> `%s` | %s | %s |' % (m['id'], m['file'], m['line'], m['old'].strip(), m['new'].strip() or '(removed)', t.get('class', 'untriaged'), t.get('note', '')))
     out.append('')
     out.append('Totals: ' + ', '.join('%s %d' % kv for kv in sorted(cl.items())) + '.\n')
+    hist = [m for m in caught if tri.get(m['id'], {}).get('class') == 'missed']
+    if hist:
+        out.append('## Flagged now, missed by the first run of the campaign\n')
+        out.append('| id | site | change | what was missing |\n|---|---|---|---|')
+        for m in hist:
+            out.append('| %s | %s:%d | `%s` -> `%s` | %s |' % (m['id'], m['file'], m['line'], m['old'].strip(), m['new'].strip() or '(removed)', tri[m['id']]['note']))
+        out.append('')
     out.append('## Suite-surviving mutants flagged by the checks\n')
     out.append('| site | change | line after the change | alarming checks |\n|---|---|---|---|')
     for m in caught:
